@@ -225,3 +225,124 @@ Example C03_repaired_on_witness :
   end = true.
 Proof. exact repaired_potential_on_witness. Qed.
 Print Assumptions C03_repaired_on_witness.
+
+(* ================================================================== *)
+(* The CRPS kernel on the REGENERATED program (MiniC translation of   *)
+(* src/hydrodiy/stat/c_crps.c, Gen/KernelsAst.v; qsort = glibc's merge *)
+(* sort with the translated comparator).                              *)
+(* ================================================================== *)
+From Coq Require Import String Lia PrimFloat.
+From Hy Require Import Base.Num Base.MiniC Gen.KernelsAst Gen.Consts Gen.ConstsC03 Model.Crps.
+From Hy Require Proofs.RefineCrps.
+Import ListNotations.
+Open Scope string_scope.
+Open Scope list_scope.
+Open Scope Z_scope.
+
+(* c_crps = the model with the kernel's own sort (crps_with), any arithmetic instance satisfying lits_ok (binary64, reals, reals with NaN), ALL data (NaN members included): decomposition and reliability table on success, a positive code and untouched outputs on the EDOM return *)
+Theorem C03_kernel_crps_refines_model_with_kernel_sort :
+  forall (T : Type) (N : NumOps T) (X : NumLit T) (uw isrt : Z) (v : list (T * list T))
+         (m : nat) (wv rt0 : list T) (n : nat),
+       RefineCrps.lits_ok N X ->
+       uw <> 1 ->
+       v <> [] ->
+       (0 < m)%nat ->
+       Forall (fun r : T * list T => Datatypes.length (snd r) = m) v ->
+       Datatypes.length rt0 = (7 * S m)%nat ->
+       (Nat.max (Datatypes.length v) (S m) < n)%nat ->
+       match RefineCrps.crps_with N isrt v with
+       | Some out =>
+           exec_fun N X program (S n) "c_crps" (RefineCrps.crps_args N uw isrt v m wv rt0) =
+           Ok
+             (RI 0,
+              [VArrF (map fst v); VArrF (List.concat (map snd v)); VArrF wv;
+               VArrF (RefineCrps.table_vals (o_table out)); VArrF (RefineCrps.dec_vals out)])
+       | None =>
+           exists code : Z,
+             0 < code /\
+             exec_fun N X program (S n) "c_crps" (RefineCrps.crps_args N uw isrt v m wv rt0) =
+             Ok
+               (RI code,
+                [VArrF (map fst v); VArrF (List.concat (map snd v)); VArrF wv; 
+                 VArrF rt0; VArrF [n0 N; n0 N; n0 N; n0 N; n0 N]])
+       end.
+Proof. exact @RefineCrps.refine_c_crps_all. Qed.
+Print Assumptions C03_kernel_crps_refines_model_with_kernel_sort.
+
+(* ... = the model [crps] of the theorems above when no ensemble member is NaN and the comparisons form a total preorder (ord_laws; proved for the reals and the reals with NaN) *)
+Theorem C03_kernel_crps_refines_model :
+  forall (T : Type) (N : NumOps T) (X : NumLit T) (rows : list (T * list T)) 
+         (m : nat) (wv rt0 : list T) (n : nat),
+       RefineCrps.lits_ok N X ->
+       RefineCrps.ord_laws N (RefineCrps.notnan N) ->
+       let v := filter (row_valid N) rows in
+       v <> [] ->
+       Forall (fun r : T * list T => Datatypes.length (snd r) = m) v ->
+       Forall (fun r : T * list T => Forall (RefineCrps.notnan N) (snd r)) v ->
+       Datatypes.length rt0 = (7 * S m)%nat ->
+       (Nat.max (Datatypes.length v) (S m) < n)%nat ->
+       match crps N rows with
+       | Some out =>
+           exec_fun N X program (S n) "c_crps"
+             (RefineCrps.crps_args N CRPS_USE_WEIGHTS CRPS_IS_SORTED v m wv rt0) =
+           Ok
+             (RI 0,
+              [VArrF (map fst v); VArrF (List.concat (map snd v)); VArrF wv;
+               VArrF (RefineCrps.table_vals (o_table out)); VArrF (RefineCrps.dec_vals out)])
+       | None =>
+           exists code : Z,
+             0 < code /\
+             exec_fun N X program (S n) "c_crps"
+               (RefineCrps.crps_args N CRPS_USE_WEIGHTS CRPS_IS_SORTED v m wv rt0) =
+             Ok
+               (RI code,
+                [VArrF (map fst v); VArrF (List.concat (map snd v)); VArrF wv; 
+                 VArrF rt0; VArrF [n0 N; n0 N; n0 N; n0 N; n0 N]])
+       end.
+Proof. exact @RefineCrps.refine_c_crps. Qed.
+Print Assumptions C03_kernel_crps_refines_model.
+
+(* over the reals: no hypothesis on the data; the kernel never takes its error return *)
+Theorem C03_kernel_crps_refines_model_reals :
+  forall (rows : list (R * list R)) (m : nat) (wv rt0 : list R) (n : nat),
+       let v := filter (row_valid RR) rows in
+       v <> [] ->
+       Forall (fun r : R * list R => Datatypes.length (snd r) = m) v ->
+       Datatypes.length rt0 = (7 * S m)%nat ->
+       (Nat.max (Datatypes.length v) (S m) < n)%nat ->
+       exists out : crout,
+         crps RR rows = Some out /\
+         exec_fun RR XRR program (S n) "c_crps"
+           (RefineCrps.crps_args RR CRPS_USE_WEIGHTS CRPS_IS_SORTED v m wv rt0) =
+         Ok
+           (RI 0,
+            [VArrF (map fst v); VArrF (List.concat (map snd v)); VArrF wv;
+             VArrF (RefineCrps.table_vals (o_table out)); VArrF (RefineCrps.dec_vals out)]).
+Proof. exact @RefineCrps.refine_c_crps_RR. Qed.
+Print Assumptions C03_kernel_crps_refines_model_reals.
+
+(* the qsort comparator, NaN included *)
+Theorem C03_kernel_compare :
+  forall (T : Type) (N : NumOps T) (X : NumLit T) (n : nat) (a b : T),
+       exec_fun N X program (S n) "c_crps.compare" [AVArrF [a]; AVArrF [b]] =
+       Ok (RI (RefineCrps.cmpz N a b), [VArrF [a]; VArrF [b]]).
+Proof. exact @RefineCrps.compare_run. Qed.
+Print Assumptions C03_kernel_compare.
+
+(* an ensemble with a NaN member (admitted by the wrapper as soon as one member is not NaN) is left unsorted by the comparator: binary64 witness where kernel and model differ (outside C03, which quantifies over finite values) *)
+Theorem C03_kernel_nan_member_not_sorted :
+  let rows := [(2%float, [3%float; nan; 1%float])] in
+       filter (row_valid F64) rows = rows /\
+       RefineCrps.ksort F64 [3%float; nan; 1%float] = [3%float; nan; 1%float] /\
+       sort F64 [3%float; nan; 1%float] = [1%float; nan; 3%float] /\
+       (exists (t : list float) (d0 d2 d3 d4 : float),
+          exec_fun F64 XF64 program 20 "c_crps"
+            (RefineCrps.crps_args F64 CRPS_USE_WEIGHTS CRPS_IS_SORTED rows 3 [0%float]
+               (repeat 0%float 28)) =
+          Ok
+            (RI 0,
+             [VArrF [2%float]; VArrF [3%float; nan; 1%float]; VArrF [0%float]; 
+              VArrF t; VArrF [d0; 2%float; d2; d3; d4]])) /\
+       (exists out : crout, crps F64 rows = Some out /\ o_reli out = 0%float).
+Proof. exact @RefineCrps.finding_nan_member. Qed.
+Print Assumptions C03_kernel_nan_member_not_sorted.
